@@ -72,7 +72,7 @@ FREE_2 = {"BSgate": ["a", "a"], "S2gate": ["r", "a"], "CXgate": ["r"], "CZgate":
 PREPS = {"Coherent": ["d", "a"], "Squeezed": ["r", "a"], "DisplacedSqueezed": ["d", "a", "r", "a"], "Thermal": ["n"], "Vacuum": []}
 CHANNELS = {"LossChannel": ["t"], "ThermalLossChannel": ["t", "n"]}
 FOCK_ONLY = {"Kgate": ["r"], "Fock": ["k"]}
-HBARS = [0.5, 1.0, 2.0, 0.25, 4.0, 3.0, 1.7, 0.8, 7.3, 2.5]
+HBARS = [0.5, 1.0, 2.0, 0.25, 4.0, 3.0, 1.7, 0.8, 7.3, 2.5, 1, 3]  # (ints on purpose)
 
 
 # ------------------------------------------------------------------------------------------------
@@ -116,6 +116,39 @@ def rand_sympl_cov(rng, n):
         return [float(x) for x in st.means()], [[float(x) for x in row] for row in cov]
     finally:
         sf.hbar = old
+
+
+def gauss_prep_case(rng, k):
+    """(r, V) in hbar=2 units for a k-mode Gaussian(V, r): every branch of Gaussian._decompose (vacuum, x/p-squeezed
+    diagonal, rotated squeezed block-diagonal, thermal diagonal, general pure / mixed) and r = None / zeros / partial."""
+    cls = rng.choice(["vacuum", "diag-squeezed", "block-rotated", "thermal", "general", "general"])
+    if cls == "general":
+        r, V = rand_sympl_cov(rng, k)
+    else:
+        V = np.zeros((2 * k, 2 * k))
+        for i in range(k):
+            if cls == "vacuum":
+                b = np.eye(2)
+            elif cls == "diag-squeezed":
+                t = rng.choice([0.0, 0.4, -0.3, 0.7])
+                b = np.diag([math.exp(-2 * t), math.exp(2 * t)])
+            elif cls == "thermal":
+                b = np.eye(2) * (2 * rng.choice([0.0, 0.3, 1.0, 0.05]) + 1)
+            else:
+                t, ph = rng.choice([0.3, 0.5, 0.0]), rng.choice([0.4, 1.2, -0.8, HALFPI])
+                R = np.array([[math.cos(ph / 2), -math.sin(ph / 2)], [math.sin(ph / 2), math.cos(ph / 2)]])
+                b = R @ np.diag([math.exp(-2 * t), math.exp(2 * t)]) @ R.T
+            V[i, i], V[i, k + i], V[k + i, i], V[k + i, k + i] = b[0, 0], b[0, 1], b[1, 0], b[1, 1]
+        V = [[float(x) for x in row] for row in V]
+        r = [_r3(rng.uniform(-1, 1)) for _ in range(2 * k)]
+    u = rng.random()
+    if u < 0.2:
+        r = None
+    elif u < 0.35:
+        r = [0.0] * (2 * k)
+    elif u < 0.55:
+        r = [0.0 if rng.random() < 0.5 else x for x in r]
+    return r, V, cls
 
 
 def gen_op(rng, n, backend, first=False):
@@ -170,15 +203,14 @@ def gen_spec(rng, backend=None, max_n=3):
     if backend == "gaussian" and rng.random() < 0.45:
         k = rng.randint(1, n)
         modes = sorted(rng.sample(range(n), k))
-        r, V = rand_sympl_cov(rng, k)
-        if rng.random() < 0.25:
-            r = [0.0 if rng.random() < 0.5 else x for x in r]
-        opsl.append({"op": "Gaussian", "V": V, "r": r, "m": modes, "decomp": rng.random() < 0.5, "dg": False})
+        r, V, cls = gauss_prep_case(rng, k)
+        opsl.append({"op": "Gaussian", "V": V, "r": r, "m": modes, "decomp": rng.random() < 0.5, "dg": False, "cls": cls})
     if backend == "bosonic" and rng.random() < 0.6:
         m = rng.randrange(n)
         u = rng.random()
         if u < 0.45:
-            opsl.append({"op": "Catstate", "p": [_r3(rng.uniform(0.4, 1.2)), _r3(rng.uniform(0, 1)), rng.choice([0, 1])], "m": [m], "dg": False})
+            opsl.append({"op": "Catstate", "p": [_r3(rng.uniform(0.4, 1.2)), _r3(rng.uniform(0, 1)), rng.choice([0, 1])], "m": [m], "dg": False,
+                         "rep": rng.choice(["complex", "complex", "real"])})
         elif u < 0.7:
             opsl.append({"op": "GKP", "state": [rng.choice([0.0, HALFPI, 0.6]), rng.choice([0.0, 0.4])], "eps": rng.choice([0.35, 0.5]), "m": [m], "dg": False})
         else:
@@ -186,7 +218,7 @@ def gen_spec(rng, backend=None, max_n=3):
     for j in range(rng.randint(1, 6)):
         opsl.append(gen_op(rng, n, backend, first=(j == 0)))
     if backend == "bosonic" and rng.random() < 0.6:
-        opsl.append({"op": "MSgate", "p": [_r3(rng.uniform(0.1, 0.6)), _r3(rng.uniform(-1, 1)), _r3(rng.uniform(0.8, 1.5)), _r3(rng.uniform(0.7, 1.0))],
+        opsl.append({"op": "MSgate", "p": [rng.choice([1, 1, -1]) * _r3(rng.uniform(0.1, 0.6)), rng.choice([0.0, _r3(rng.uniform(-1, 1))]), _r3(rng.uniform(0.8, 1.5)), rng.choice([1.0, _r3(rng.uniform(0.7, 1.0))])],
                      "avg": rng.random() < 0.35, "m": [rng.randrange(n)], "dg": False})
         if rng.random() < 0.5:
             opsl.append(gen_op(rng, n, backend))
@@ -194,13 +226,16 @@ def gen_spec(rng, backend=None, max_n=3):
     if rng.random() < 0.55 and not (backend == "bosonic" and n == 1):  # bosonic homodyne needs a second mode
         m = rng.randrange(n)
         sel = None if (rng.random() < 0.35) else _r3(rng.uniform(-1.0, 1.0))
-        if backend == "fock" and sel is None:
-            sel = _r3(rng.uniform(-1.0, 1.0))  # the fock sampler is slow (100000 bins); post-select only
+        if sel is not None and rng.random() < 0.1:
+            sel = 0.0
         if n >= 2 and rng.random() < 0.7:
             # correlate the measured mode with another one so that the conditional state depends on the outcome
             other = rng.choice([x for x in range(n) if x != m])
             opsl.append({"op": "BSgate", "p": [_r3(rng.uniform(0.4, 1.1)), draw(rng, "a")], "m": [m, other], "dg": False})
         opsl.append({"op": "MeasureHomodyne", "phi": draw(rng, "a"), "select": sel, "m": [m], "dg": False})
+        if n >= 2 and backend != "bosonic" and rng.random() < 0.35:
+            # feed-forward: a position / momentum displacement by (factor x measured value) on another mode
+            opsl.append({"op": rng.choice(["Xgate", "Zgate"]), "p": [0.0], "ff": [m, rng.choice([1.0, -0.5, 0.7])], "m": [rng.choice([x for x in range(n) if x != m])], "dg": rng.random() < 0.2})
         if rng.random() < 0.6:
             opsl.append(gen_op(rng, n, backend))
     elif backend in ("gaussian", "bosonic") and n >= 2 and rng.random() < 0.3:
@@ -214,6 +249,15 @@ def gen_spec(rng, backend=None, max_n=3):
     spec = {"backend": backend, "n": n, "ops": opsl}
     if backend == "fock":
         spec["cutoff"] = rng.choice([6, 7, 8])
+        spec["run_opts"] = {"num_bins": 4000}  # (only read by the sampling branch of the fock homodyne)
+    if rng.random() < 0.25:
+        spec["optimize"] = True
+    # free (symbolic) program parameters for some of the unit-converting gates
+    for j, o in enumerate(opsl):
+        if o["op"] in POWERS and "ff" not in o and rng.random() < 0.25 and backend != "bosonic":
+            o["sym"] = "a%d" % j
+    if backend == "bosonic" and opsl[-1]["op"] == "MeasureHomodyne" and opsl[-1]["select"] is None and rng.random() < 0.5:
+        spec["shots"] = rng.choice([2, 3])
     # parameters of the queries
     spec["q"] = {
         "alpha": [[_r3(rng.uniform(-0.8, 0.8)), _r3(rng.uniform(-0.8, 0.8))] for _ in range(n)],
@@ -240,7 +284,7 @@ def malform(rng, spec):
         spec.pop("cutoff", None)
         spec["ops"] = [o for o in spec["ops"] if o["op"] not in ("Vgate", "Kgate", "Fock", "Catstate", "GKP", "MSgate", "MeasureFock")]
     if kind == "gauss-r-len":
-        g[0]["r"] = g[0]["r"] + [0.5]
+        g[0]["r"] = (g[0]["r"] or [0.0] * len(g[0]["V"])) + [0.5]
     elif kind == "gauss-V-asym":
         g[0]["V"][0][-1] += 0.3
     elif kind == "gauss-V-unphysical":
@@ -298,22 +342,29 @@ class Hbar:
         sf.hbar = self.old
 
 
-def make_op(o, h):
+def make_op(o, h, ctx_build=None):
     s = math.sqrt(h / 2)
     name = o["op"]
     if name == "Gaussian":
-        return ops.Gaussian(np.array(o["V"], dtype=float) * (s * s), np.array(o["r"], dtype=float) * s, decomp=o["decomp"])
+        return ops.Gaussian(np.array(o["V"], dtype=float) * (s * s), None if o["r"] is None else np.array(o["r"], dtype=float) * s, decomp=o["decomp"])
     if name == "MeasureHomodyne":
         return ops.MeasureHomodyne(o["phi"], select=None if o["select"] is None else o["select"] * s)
     if name == "MSgate":
         return ops.MSgate(*o["p"], avg=o["avg"])
+    if name == "Catstate":
+        return ops.Catstate(*o["p"], representation=o.get("rep", "complex"))
     if name == "GKP":
         return ops.GKP(state=list(o["state"]), epsilon=o["eps"])
     if name == "MeasureHeterodyne":
         return ops.MeasureHeterodyne(select=None if o["select"] is None else complex(*o["select"]))
     if name == "MeasureFock":
         return ops.MeasureFock()
-    if name in POWERS:
+    if name in POWERS and ctx_build is not None and "ff" in o:
+        op = getattr(ops, name)(o["ff"][1] * ctx_build["q"][o["ff"][0]].par)
+    elif name in POWERS and ctx_build is not None and "sym" in o:
+        op = getattr(ops, name)(ctx_build["prog"].params(o["sym"]))
+        ctx_build["args"][o["sym"]] = o["p"][0] * s ** POWERS[name][0]
+    elif name in POWERS:
         op = getattr(ops, name)(*[p * s ** k for p, k in zip(o["p"], POWERS[name])])
     else:
         op = getattr(ops, name)(*o["p"])
@@ -327,17 +378,31 @@ def build(spec, h):
     instance (the way `op = MeasureHomodyne(0, select=0.3); op | q[0]; op | q[1]` does)."""
     prog = sf.Program(spec["n"])
     cache = {}
+    cb = {"prog": prog, "args": {}}
     with prog.context as q:
+        cb["q"] = q
         for o in spec["ops"]:
             if spec.get("share"):
                 key = json.dumps({k: v for k, v in o.items() if k != "m"}, sort_keys=True)
                 if key not in cache:
-                    cache[key] = make_op(o, h)
+                    cache[key] = make_op(o, h, cb)
                 op = cache[key]
             else:
-                op = make_op(o, h)
+                op = make_op(o, h, cb)
             op | tuple(q[m] for m in o["m"])
+    prog._c15_args = cb["args"]
     return prog
+
+
+def run_kwargs(spec, prog):
+    kw = dict(spec.get("run_opts", {}))
+    if getattr(prog, "_c15_args", None):
+        kw["args"] = dict(prog._c15_args)
+    if spec.get("optimize"):
+        kw["compile_options"] = {"optimize": True}
+    if spec.get("shots"):
+        kw["shots"] = spec["shots"]
+    return kw
 
 
 def new_engine(spec):
@@ -371,7 +436,7 @@ def run_spec(spec, h, wrap=None, prog=None):
     if wrap is not None:
         wrap(eng.backend)
     np.random.seed(spec_seed(spec) % (2 ** 31))
-    return eng.run(prog)
+    return eng.run(prog, **run_kwargs(spec, prog))
 
 
 def _c(x):
@@ -412,7 +477,7 @@ def observables_of(res, spec, h, which=None):
                         i = idx.get(m, 0)
                         idx[m] = i + 1
                         if o["op"] == kind:
-                            vals.append(np.ravel(res.samples_dict[m][i])[0] / unit)
+                            vals.extend(np.ravel(res.samples_dict[m][i]) / unit)
             return vals
         kinds = {o["op"] for o in spec["ops"]}
         if "MeasureHomodyne" in kinds:
@@ -425,6 +490,11 @@ def observables_of(res, spec, h, which=None):
             put("ancillae_samples", lambda: [v / rt for k in sorted(res.ancillae_samples) for v in res.ancillae_samples[k]])
         alpha = np.array([complex(a, b) for a, b in q["alpha"]])
         xs = np.array(q["grid"]) * rt
+        xs5 = np.linspace(-2.0, 2.0, 5) * rt
+        k0 = q["subset"][0]
+        # marginal densities of one quadrature (BaseState: Simpson integration of the Wigner function): density * sqrt(hbar)
+        put("x_quad_values", lambda: st.x_quad_values(k0, xs5, xs5) * rt)
+        put("p_quad_values", lambda: st.p_quad_values(k0, xs5, xs5) * rt)
         if be == "gaussian":
             put("means", lambda: st.means() / rt)
             put("cov", lambda: st.cov() / h)
@@ -438,6 +508,11 @@ def observables_of(res, spec, h, which=None):
             if n <= 2:
                 put("all_fock_probs", lambda: st.all_fock_probs(cutoff=4))
             put("reduced_dm", lambda: st.reduced_dm([q["subset"][0]], cutoff=4))
+            a0 = alpha[k0]
+            put("fidelity", lambda: st.fidelity((np.array([a0.real, a0.imag]) * math.sqrt(2 * h), np.identity(2) * h / 2), k0))
+            if n <= 2:
+                put("dm", lambda: st.dm(cutoff=3))
+                put("ket", lambda: (lambda kk: [0.0] if kk is None else kk)(st.ket(cutoff=3)))
             put("parity_expectation:all", lambda: st.parity_expectation(list(range(n))))
             if len(q["subset"]) < n:
                 put("parity_expectation:subset", lambda: st.parity_expectation(q["subset"]))
@@ -463,6 +538,8 @@ def observables_of(res, spec, h, which=None):
         elif be == "fock":
             put("all_fock_probs", lambda: st.all_fock_probs())
             put("trace", lambda: st.trace())
+            put("reduced_dm", lambda: st.reduced_dm([k0]))
+            put("number_expectation", lambda: st.number_expectation(q["subset"]))
             put("mean_photon", lambda: [st.mean_photon(k) for k in range(n)])
             put("quad_expectation", lambda: [[st.quad_expectation(k, q["phi"])[0] / rt, st.quad_expectation(k, q["phi"])[1] / h] for k in range(n)])
             put("fidelity_vacuum", lambda: st.fidelity_vacuum())
@@ -486,6 +563,10 @@ def observables_of(res, spec, h, which=None):
                 put("parity_expectation:subset", lambda: st.parity_expectation(q["subset"]))
             put("wigner", lambda: st.wigner(q["subset"][0], xs, xs) * h)
             put("purity", lambda: st.purity())
+            put("reduced_dm", lambda: st.reduced_dm([k0], cutoff=4))
+            put("all_fock_probs", lambda: st.all_fock_probs(cutoff=3))
+            put("number_expectation", lambda: st.number_expectation(q["subset"]))
+            put("marginal", lambda: st.marginal(k0, xs5, phi=q["phi"]) * rt)
     return out
 
 
@@ -599,10 +680,11 @@ def reuse_history(spec, h, runs, style, which=None):
         for r in range(runs):
             if style == "fresh" or eng is None:
                 eng = new_engine(spec)
-            else:
+            elif style == "reset":
                 eng.reset()
+            # style "continue": the program is applied again to the state the previous run left behind
             np.random.seed(spec_seed(spec) % (2 ** 31))
-            res = eng.run(prog)
+            res = eng.run(prog, **run_kwargs(spec, prog))
             o = observables_of(res, spec, h, which)
             fp = fingerprint(prog)
             if which is None or "op-attributes" in which:
@@ -630,7 +712,7 @@ def _search_reuse(ctx, rng):
         spec = gen_reuse_spec(rng, be)
         h = rng.choice([x for x in HBARS if x != 2.0]) if rng.random() < 0.7 else _r3(rng.uniform(0.3, 5.0))
         runs = rng.choice([2, 2, 3])
-        style = rng.choice(["reset", "fresh"])
+        style = rng.choice(["reset", "fresh", "continue"] if be != "bosonic" else ["reset", "fresh"])
         try:
             bad, nobs = reuse_eval(spec, h, runs, style)
         except Exception as e:
@@ -791,55 +873,167 @@ def _search_units(ctx, rng):
                                {"check": "units", "case": case, "h": h, "obs": name})
 
 
+# ---- utils/states.py: every function, both bases, zero / non-zero value of every parameter ---------------------
+
+# name -> (parameter names, has hbar/basis arguments, op that prepares the same state)
+UTIL_FUNCS = {
+    "vacuum": ([], True),
+    "coherent": (["r", "phi"], True),
+    "squeezed": (["rs", "phis"], True),
+    "displaced_squeezed": (["r", "phi", "rs", "phis"], True),
+    "fock": (["n"], False),
+    "cat": (["a", "phi", "p"], False),
+}
+UTIL_NONZERO = {"r": [0.6, 1.0, 0.25], "phi": [0.7, HALFPI, -2.2, math.pi], "rs": [0.4, -0.5, 0.15], "phis": [1.1, HALFPI, -0.6, math.pi],
+                "n": [1, 2, 3], "a": [0.7, 1.1], "p": [1, 0.5]}
+
+
+def util_call(kind, pr, basis, dim, h):
+    from strawberryfields.utils import states as us
+    kw = {"basis": basis, "fock_dim": dim, "hbar": h}
+    if kind == "vacuum":
+        return us.vacuum_state(**kw)
+    if kind == "coherent":
+        return us.coherent_state(pr["r"], pr["phi"], **kw)
+    if kind == "squeezed":
+        return us.squeezed_state(pr["rs"], pr["phis"], **kw)
+    if kind == "displaced_squeezed":
+        return us.displaced_squeezed_state(pr["r"], pr["phi"], pr["rs"], pr["phis"], **kw)
+    if kind == "fock":
+        return us.fock_state(pr["n"], fock_dim=dim)
+    return us.cat_state(pr["a"], pr["phi"], pr["p"], fock_dim=dim)
+
+
+def util_op(kind, pr):
+    if kind == "vacuum":
+        return ops.Vacuum()
+    if kind == "coherent":
+        return ops.Coherent(pr["r"], pr["phi"])
+    if kind == "squeezed":
+        return ops.Squeezed(pr["rs"], pr["phis"])
+    if kind == "displaced_squeezed":
+        return ops.DisplacedSqueezed(pr["r"], pr["phi"], pr["rs"], pr["phis"])
+    if kind == "fock":
+        return ops.Fock(pr["n"])
+    return ops.Catstate(pr["a"], pr["phi"], pr["p"])
+
+
+def utils_cases_sweep():
+    """Deterministic: every function x every zero / non-zero pattern of its parameters x both bases."""
+    out = []
+    for kind, (names, has_h) in UTIL_FUNCS.items():
+        for mask in range(2 ** len(names)):
+            pr = {}
+            for i, nm in enumerate(names):
+                zero = not (mask >> i) & 1
+                pr[nm] = (0 if nm in ("n", "p") else 0.0) if zero else UTIL_NONZERO[nm][(mask + i) % len(UTIL_NONZERO[nm])]
+            for basis in (("gaussian", "fock") if has_h else ("fock",)):
+                out.append({"kind": kind, "p": pr, "basis": basis, "dim": 6})
+    return out
+
+
 def utils_case(rng):
-    return {"kind": rng.choice(["vacuum", "coherent", "squeezed", "displaced_squeezed"]),
-            "r": _r3(rng.uniform(0, 1.0)), "phi": draw(rng, "a"), "rs": _r3(rng.uniform(-0.7, 0.7)), "phis": draw(rng, "a")}
+    kind = rng.choice(sorted(UTIL_FUNCS))
+    names, has_h = UTIL_FUNCS[kind]
+    pr = {}
+    for nm in names:
+        if rng.random() < 0.3:
+            pr[nm] = 0 if nm in ("n", "p") else 0.0
+        elif nm in ("n", "p"):
+            pr[nm] = rng.choice(UTIL_NONZERO[nm])
+        elif nm in ("phi", "phis"):
+            pr[nm] = draw(rng, "a")
+        else:
+            pr[nm] = _r3(rng.uniform(-0.7, 0.7)) if nm == "rs" else _r3(rng.uniform(0.05, 1.0))
+    return {"kind": kind, "p": pr, "basis": rng.choice(["gaussian", "fock"]) if has_h else "fock", "dim": rng.choice([5, 6, 8])}
 
 
 def utils_eval(case, h):
-    """utils.states.*(basis='gaussian', hbar=h) must be the state the engine prepares at sf.hbar = h."""
-    from strawberryfields.utils import states as us
-    kind = case["kind"]
-    with Hbar(h):
-        prog = sf.Program(1)
-        with prog.context as q:
-            if kind == "vacuum":
-                ops.Vacuum() | q[0]
-                ref = us.vacuum_state(basis="gaussian", hbar=h)
-            elif kind == "coherent":
-                ops.Coherent(case["r"], case["phi"]) | q[0]
-                ref = us.coherent_state(case["r"], case["phi"], basis="gaussian", hbar=h)
-            elif kind == "squeezed":
-                ops.Squeezed(case["rs"], case["phis"]) | q[0]
-                ref = us.squeezed_state(case["rs"], case["phis"], basis="gaussian", hbar=h)
-            else:
-                ops.DisplacedSqueezed(case["r"], case["phi"], case["rs"], case["phis"]) | q[0]
-                ref = us.displaced_squeezed_state(case["r"], case["phi"], case["rs"], case["phis"], basis="gaussian", hbar=h)
-        st = sf.Engine("gaussian").run(prog).state
-        bad = []
-        if differs(_c(st.means()), _c(ref[0]), 1e-8):
-            bad.append(("means", _short(_c(st.means())), _short(_c(ref[0]))))
-        if differs(_c(st.cov()), _c(ref[1]), 1e-8):
-            bad.append(("cov", _short(_c(st.cov())), _short(_c(ref[1]))))
-        # and the reference fed back through Gaussian(decomp=False) reproduces itself
-        prog = sf.Program(1)
-        with prog.context as q:
-            ops.Gaussian(np.array(ref[1]), np.array(ref[0]), decomp=False) | q[0]
-        st2 = sf.Engine("gaussian").run(prog).state
-        if differs(_c(st2.cov()), _c(ref[1]), 1e-7) or differs(_c(st2.means()), _c(ref[0]), 1e-7):
-            bad.append(("gaussian-roundtrip", _short(_c(st2.cov())), _short(_c(ref[1]))))
+    """utils.states.<kind>_state(..., hbar=h): means ~ sqrt(hbar), cov ~ hbar; equal to the state the corresponding
+    preparation produces on a backend at sf.hbar = h; dimensionless predictions of the loaded state hbar-free;
+    Fock-basis kets independent of hbar and equal to the Fock backend's preparation."""
+    kind, pr, basis, dim = case["kind"], case["p"], case["basis"], case["dim"]
+    bad = []
+
+    def chk(name, got, want, tol=1e-8):
+        if differs(_c(got), _c(want), tol):
+            bad.append((name, _short(_c(got)), _short(_c(want))))
+
+    if basis == "gaussian":
+        ref = util_call(kind, pr, "gaussian", dim, h)
+        ref2 = util_call(kind, pr, "gaussian", dim, 2.0)
+        chk("means-scale", np.asarray(ref[0]) / math.sqrt(h), np.asarray(ref2[0]) / math.sqrt(2))
+        chk("cov-scale", np.asarray(ref[1]) / h, np.asarray(ref2[1]) / 2)
+
+        def load(state, hh):
+            with Hbar(hh):
+                pg = sf.Program(1)
+                with pg.context as q:
+                    ops.Gaussian(np.array(state[1], dtype=float), np.array(state[0], dtype=float), decomp=False) | q[0]
+                st_ = sf.Engine("gaussian").run(pg).state
+                return st_, np.concatenate([_c(st_.mean_photon(0)), _c(st_.all_fock_probs(cutoff=dim)), _c(st_.fidelity_vacuum()), _c(st_.displacement())])
+        with Hbar(h):
+            prog = sf.Program(1)
+            with prog.context as q:
+                util_op(kind, pr) | q[0]
+            st = sf.Engine("gaussian").run(prog).state
+            chk("means-vs-engine", ref[0], st.means())
+            chk("cov-vs-engine", ref[1], st.cov())
+        st_h, dl_h = load(ref, h)
+        with Hbar(h):
+            chk("gaussian-roundtrip", np.concatenate([st_h.means(), st_h.cov().ravel()]), np.concatenate([np.asarray(ref[0]), np.asarray(ref[1]).ravel()]), 1e-7)
+        _, dl_2 = load(ref2, 2.0)
+        chk("loaded-dimensionless", dl_h, dl_2, 1e-7)
+        # the two bases describe the same state: photon statistics of the loaded Gaussian state = |ket|^2
+        ket = np.asarray(util_call(kind, pr, "fock", dim, h))
+        chk("gaussian-vs-fock-basis-probs", dl_h[2:2 + dim], np.abs(ket) ** 2, 1e-6)
+    else:
+        ket = np.asarray(util_call(kind, pr, "fock", dim, h))
+        ket2 = np.asarray(util_call(kind, pr, "fock", dim, 2.0))
+        chk("ket-hbar-free", ket, ket2)
+        with Hbar(h):
+            prog = sf.Program(1)
+            with prog.context as q:
+                util_op(kind, pr) | q[0]
+            st = sf.Engine("fock", backend_options={"cutoff_dim": dim}).run(prog).state
+            bk = st.ket() if st.is_pure else None
+            if bk is not None:
+                # (neither side renormalises the truncated ket)
+                chk("ket-vs-fock-backend", np.abs(bk) ** 2, np.abs(ket) ** 2, 1e-6)
+                chk("quad-vs-fock-backend", [st.quad_expectation(0, 0.3)[0] / math.sqrt(h)], [_ket_quad(ket, 0.3)], 1e-6)
     return bad
 
 
+def _ket_quad(ket, phi):
+    """<x_phi>/sqrt(hbar) of a ket in the truncated space: sqrt(2) Re(e^{-i phi} <a>)"""
+    a = sum(np.conj(ket[n]) * np.sqrt(n + 1) * ket[n + 1] for n in range(len(ket) - 1))
+    return float(np.sqrt(2) * np.real(np.exp(-1j * phi) * a))
+
+
 def _search_utils(ctx, rng):
-    for _ in range(ctx.budget(50, 1000)):
-        case = utils_case(rng)
-        h = rng.choice(HBARS) if rng.random() < 0.7 else _r3(rng.uniform(0.3, 5))
-        bad = utils_eval(case, h)
-        ctx.case({"utils": case, "h": h}, nontrivial=h != 2, bucket="utils:" + case["kind"])
+    hs = [0.5, 3.0, rng.choice([1.0, 0.25, 4.0, 1.7, 7.3])]
+    todo = [(c, h) for c in utils_cases_sweep() for h in hs]
+    for _ in range(ctx.budget(60, 1500)):
+        todo.append((utils_case(rng), rng.choice(HBARS) if rng.random() < 0.7 else _r3(rng.uniform(0.3, 5))))
+    for case, h in todo:
+        try:
+            bad = utils_eval(case, h)
+        except Exception as e:
+            k2 = "ok"
+            try:
+                utils_eval(case, 2.0)
+            except Exception as e2:
+                k2 = type(e2).__name__
+            if k2 != type(e).__name__:
+                ctx.counterexample("utils.states:%s:%s:raises" % (case["kind"], case["basis"]), "raises %s at hbar=%s but %s at hbar=2" % (type(e).__name__, h, k2),
+                                   {"check": "utils", "case": case, "h": h, "obs": "raises"})
+            ctx.case({"utils": case, "h": h, "error": type(e).__name__}, nontrivial=False, bucket="utils-error:%s:%s" % (case["kind"], type(e).__name__))
+            continue
+        zeros = sum(1 for v in case["p"].values() if v == 0)
+        ctx.case({"utils": case, "h": h}, nontrivial=h != 2, bucket="utils:%s:%s:zeros%d" % (case["kind"], case["basis"], zeros))
         for name, got, want in bad:
-            ctx.counterexample("utils.states:%s:%s" % (case["kind"], name),
-                               "utils.states.%s_state(basis='gaussian', hbar=%s) %s differs from the engine's state: %s vs %s" % (case["kind"], h, name, want, got),
+            ctx.counterexample("utils.states:%s:%s:%s" % (case["kind"], case["basis"], name),
+                               "utils.states %s (basis=%s, parameters %s, hbar=%s): %s: got %s, expected %s" % (case["kind"], case["basis"], case["p"], h, name, got, want),
                                {"check": "utils", "case": case, "h": h, "obs": name})
 
 
@@ -884,7 +1078,14 @@ def wrap_backend(log):
 
 def gen_corr_spec(rng):
     spec = gen_spec(rng)
+    spec.pop("optimize", None)  # (merging changes the call sequence; the search covers it)
+    spec.pop("shots", None)
     for o in spec["ops"]:
+        if "ff" in o:  # parameter known only at run time
+            o.pop("ff")
+            o["op"], o["p"] = "Rgate", [0.3]
+        if "sym" in o and o["p"][0] == 0:  # a symbolic zero is not skipped by Gate.apply
+            o.pop("sym")
         if o["op"] == "Dgate":  # its displacement call would be indistinguishable from Xgate's in the log
             o["op"], o["p"] = "Rgate", [o["p"][1]]
         if o["op"] in ("Coherent", "DisplacedSqueezed") and spec["backend"] == "bosonic":
@@ -913,7 +1114,7 @@ def coq_ops(spec, h):
             out.append("@%s float %s %d %s" % ({"Xgate": "Xg", "Zgate": "Zg", "Vgate": "Vg"}[name], F(val), k, dg))
         elif name == "Gaussian":
             V = np.array(o["V"], dtype=float) * (s * s)
-            r = np.array(o["r"], dtype=float) * s
+            r = np.zeros(len(o["V"])) if o["r"] is None else np.array(o["r"], dtype=float) * s
             out.append("@%s float %s %s %s" % ("GaussDecomp" if o["decomp"] else "GaussDirect",
                                               coq.coq_list([coq.coq_list(row, F) for row in V]), coq.coq_list(r, F), coq.coq_list(o["m"], str)))
         elif name == "MeasureHomodyne":
